@@ -275,6 +275,23 @@ CLAIMED["C12"] = dict(
          "evidence falls back to the generic counts.",
     design_ref="§5 C12", note="Graphs are deduplicated first (two trace_calls of one Python function give equal but distinct definitions).")
 
+CLAIMED["C05"] = dict(
+    technique="correspondence of every real transformation (singly and in pipelines) with the reference evaluator + input snapshots; "
+              "Lean 4 theorems over the heap model of transform mappers (PtProofs/C05.lean) when present in the build",
+    text="Tie: copy mapper, map_and_copy(identity), deduplicate, deduplicate_data_wrappers, eliminate_dead_code, "
+         "materialize_with_mpms, unify_axes_tags, preprocessing for code generation — singly and in seeded pipelines of length <= 4 — "
+         "on generated programs incl. duplicated sub-expressions (non-deduplicated graphs), zeros_like/ones_like dead references, "
+         "multi-output dictionaries, pre-tagged nodes/axes/reductions: same output names, every output keeps shape/dtype/value "
+         "under the reference evaluator (thorough: also generated code); the input graph keeps its reflective structural "
+         "fingerprint (kinds, all fields, tags, edges, bytes of wrapped data) and wrapped buffers are byte-identical and keep "
+         "their writeable flag; deduplicate/eliminate_dead_code/materialize_with_mpms idempotent; materialize_with_mpms and "
+         "unify_axes_tags change nothing but tags (reflective comparison ignoring tags/axes); map_and_copy(identity) returns its "
+         "argument itself. Theorems (heap model: identity transformation returns its argument, transformations only append, "
+         "deduplication is duplicate-free/unfold-preserving/idempotent, node-wise denotation preservation lifts to any DAG): "
+         "listed in the evidence when PtProofs/C05.lean is present; until then the evidence falls back to generic counts. "
+         "Partial: Python-level mutation/aliasing is monitored by snapshots, not modelled.",
+    design_ref="§5 C05", note="Graphs with duplicates are only given to deduplicate / the unchecked copy mapper first, as pytato documents.")
+
 NOT_YET = "check not built yet in this revision (see DESIGN.md §10 build order); not claimed"
 
 ALL = [f"C{n:02d}" for n in range(1, 21)]
